@@ -137,6 +137,17 @@ Theorem C09_fmt_count_holds : forall text nerr, (10 <= byte_lenZ text)%Z -> (0 <
 Proof. exact fmt_count_holds. Qed.
 Print Assumptions C09_fmt_count_holds.
 
+(* 10b. finding fence-zero-range: the hand-built SourceRange::default() = 0:0-0:0 is outside every input and not
+        formatter-safe, whereas no range built from cursors of a newline-terminated source is of that form. *)
+Theorem C09_refuted_fence_zero_range : forall ws,
+  range_withinb ws (SR 0 0 0 0) = false /\ fmt_safeb (SR 0 0 0 0) = false /\ is_zero (SR 0 0 0 0) = true.
+Proof. exact zero_range_outside. Qed.
+Print Assumptions C09_refuted_fence_zero_range.
+
+Theorem C09_cursor_range_not_zero : forall gs a b bump, ends_nl gs -> a <= b -> is_zero (to_srange gs (CR a b bump)) = false.
+Proof. exact cursor_range_not_zero. Qed.
+Print Assumptions C09_cursor_range_not_zero.
+
 (* 11. the line table the judge recomputes from the text bytes is the model's line table (line_widths of the
        newline-terminated grapheme list) — stated over the ASCII grapheme view (one grapheme per byte, CR LF one grapheme;
        control characters width 0); for non-ASCII lines the judge only bounds the harness's counts (see line_okb). *)
